@@ -24,18 +24,31 @@ def _csum():
     return h.hexdigest()
 
 
+ARCHS = ("x86", "arm", "aarch64", "msp430", "mep", "mips32", "ppc32")
+
+
 def _have_all():
-    need = ["miasm/jitter/VmMngr", "miasm/jitter/Jitgcc"] + [
-        "miasm/jitter/arch/JitCore_%s" % a for a in ("x86", "arm", "aarch64", "msp430", "mep", "mips32", "ppc32")]
+    need = ["miasm/jitter/VmMngr", "miasm/jitter/Jitgcc"] + ["miasm/jitter/arch/JitCore_%s" % a for a in ARCHS]
     for n in need:
         if not glob.glob(os.path.join(REPO, n + ".*.so")):
             return False
     return True
 
 
+def _importable():
+    """every extension must import in a fresh interpreter (catches half-linked objects)"""
+    code = ("import sys; sys.path.insert(0, %r); import miasm.jitter.VmMngr, miasm.jitter.Jitgcc\n"
+            "import importlib\n"
+            "for a in %r: importlib.import_module('miasm.jitter.arch.JitCore_' + a)\n" % (REPO, ARCHS))
+    env = dict(os.environ)
+    env.pop("PYTHONPATH", None)
+    p = subprocess.run([PY, "-c", code], env=env, stdout=subprocess.PIPE, stderr=subprocess.STDOUT)
+    return p.returncode == 0
+
+
 def ensure_built(verbose=False):
     os.makedirs(os.path.join(REPO, "build"), exist_ok=True)
-    stamp = os.path.join(REPO, "build", ".verif_cstamp")
+    stamp = os.path.join(REPO, "build", ".verif_cstamp2")  # written only after a serial build whose products import
     lock = os.path.join(REPO, "build", ".verif_lock")
     with open(lock, "w") as lf:
         fcntl.flock(lf, fcntl.LOCK_EX)
@@ -48,9 +61,14 @@ def ensure_built(verbose=False):
             return False
         env = dict(os.environ)
         env.pop("PYTHONPATH", None)
-        p = subprocess.run([PY, "setup.py", "build_ext", "--inplace", "-j16"], cwd=REPO, env=env,
+        # serial on purpose: miasm's extensions share source files, and a parallel build_ext compiles them
+        # to the same build/temp object paths concurrently (half-written objects get linked)
+        import shutil
+        for d in glob.glob(os.path.join(REPO, "build", "temp*")):
+            shutil.rmtree(d, ignore_errors=True)
+        p = subprocess.run([PY, "setup.py", "build_ext", "--inplace"], cwd=REPO, env=env,
                            stdout=subprocess.PIPE, stderr=subprocess.STDOUT)
-        if p.returncode != 0 or not _have_all():
+        if p.returncode != 0 or not _have_all() or not _importable():
             sys.stderr.write(p.stdout.decode("utf-8", "replace")[-4000:])
             raise RuntimeError("building miasm C extensions failed")
         with open(stamp, "w") as f:
